@@ -255,14 +255,15 @@ func equals(w *worker, t types.Type, x, y value) value {
 	case sym:
 		return symEq(x, y)
 	case string:
-		if ys, ok := y.(symstr); ok {
+		switch ys := y.(type) {
+		case symstr, opaqueStr:
 			return strEq(x, ys)
 		}
 		return x == y.(string)
 	case symstr:
 		return strEq(x, y)
 	case opaqueStr:
-		opaqueAbort(x)
+		return strEq(x, y)
 	case *value:
 		return x == y.(*value)
 	case *chanV:
